@@ -272,6 +272,13 @@ def escapable(ctx):
                         if d and "list(" in unparse(d[0].value):
                             snapshot = True
                 per_process_ok = "exitcode is not None" in txt or "exitcode is None" in txt
+                # 0 is an exit code: a worker that left normally (idle time-out, clean shutdown) has exitcode 0, which is
+                # falsy - "has exited" must be tested with `is (not) None`, never by truthiness
+                truthy = [x for x in ast.walk(t) if isinstance(x, ast.Attribute) and x.attr == "exitcode" and isinstance(parent(x), (ast.BoolOp, ast.UnaryOp, ast.While, ast.If, ast.IfExp, ast.comprehension, ast.GeneratorExp, ast.ListComp))]
+                if truthy:
+                    ctx.bad(truthy[0], "polling loop `while %s` treats `exitcode` as a truth value: a worker that exited with code 0 counts as 'still starting', so the loop never ends for it "
+                            "(the executor is not flagged broken by a clean exit)" % unparse(t, 100), key="%s::%s::exitcode tested by truthiness" % (rel, q))
+                    continue
                 if snapshot and not per_process_ok and not mentions_broken:
                     ctx.bad(lp, "polling loop `while %s` waits on a snapshot list of processes with a predicate that stays false forever for a worker that died "
                             "(is_alive() of a dead process never becomes true) and does not test the broken flag: the caller spins forever holding the executor locks" % unparse(t, 100))
